@@ -75,6 +75,8 @@ func NewCollector(prop, tier string, seed int64) *Collector {
 	}
 }
 
+var maxPerSig = 5
+
 func hashKey(s string) string {
 	h := sha1.Sum([]byte(s))
 	return hex.EncodeToString(h[:8])
@@ -106,7 +108,7 @@ func (c *Collector) Add(cs Case) {
 		r.FailureCount++
 		c.sigSeen[cs.Sig]++
 		// keep at most 5 examples per signature
-		if c.sigSeen[cs.Sig] <= 5 {
+		if c.sigSeen[cs.Sig] <= maxPerSig {
 			r.Failures = append(r.Failures, Failure{Case: replay, What: cs.Fail, Sig: cs.Sig, Impl: cs.Impl})
 		}
 	}
